@@ -218,6 +218,20 @@ CHECKS = {
         technique="TLA+ specs (TracerOps, PyMini) + TLC enumeration replayed on the real tracer / import hook; TLC trace validation",
         design_ref="4.3, 4.6, 5/C01",
     ),
+    "C08": dict(
+        category="model_checking",
+        text="PyMini.tla defines Excluded / LineGoals / PredGoals for programs with exclusion markers on statement, "
+             "else, except and finally lines. TLC enumerates every program x every placement of one marker (thorough: "
+             "two) and every --no-cover/--only-cover configuration over a second function, a class and its method, "
+             "plus the `__main__` and TYPE_CHECKING blocks; each case is rendered, imported through Pynguin's real "
+             "hook and TLC compares the registered line goals, predicates and code objects with the prediction "
+             "(NoGoalInExcludedCode, AllOtherLinesAreGoals).",
+        note="'Excluded code' for a marker on a compound header = header + the branch it heads; on a clause line = "
+             "that clause. Executable line = reachable line of the compiled code object. elif chains, match "
+             "statements and nested scopes deeper than class.method are not generated.",
+        technique="TLA+ semantics + TLC case enumeration replayed on the real import hook; TLC trace validation",
+        design_ref="4.6, 5/C08",
+    ),
 }
 
 NOT_BUILT_REASON = "not built yet in this round (planned, see DESIGN.md section 5); no claim is made"
